@@ -468,3 +468,65 @@ Example ensure_stack_example :
   ensure_stack true 1023990 100 1024000 = OutOfStack /\
   ensure_stack true 1000 100 1024 = Enough 2048.
 Proof. repeat split. Qed.
+
+(* ------------------------------------------------------------------ deep (non-tail) recursion *)
+
+Lemma deep_iter_inv : forall per n top len, 0 < per <= n -> 0 <= top < len -> len <= MAX_STACK_SIZE ->
+  forall k : nat,
+  let st := Nat.iter k (deep_step per n) (top, Enough len) in
+  (snd st = OutOfStack /\ (0 < k)%nat /\ top + (Z.of_nat k - 1) * per + n >= MAX_STACK_SIZE) \/
+  (exists len', st = (top + Z.of_nat k * per, Enough len') /\ len <= len' <= MAX_STACK_SIZE /\
+                top + Z.of_nat k * per < len' /\ ((0 < k)%nat -> top + (Z.of_nat k - 1) * per + n < len')).
+Proof.
+  intros per n top len Hp Ht Hl k. induction k as [|k IH].
+  - right. exists len. unfold Nat.iter; cbn [nat_rect]. change (Z.of_nat 0) with 0. rewrite Z.mul_0_l, Z.add_0_r.
+    repeat split; try lia.
+  - cbv zeta in IH |- *. change (Nat.iter (S k) (deep_step per n) (top, Enough len)) with (deep_step per n (Nat.iter k (deep_step per n) (top, Enough len))). set (st := Nat.iter k (deep_step per n) (top, Enough len)) in *.
+    rewrite Nat2Z.inj_succ. destruct IH as [[E [K G]]|[len' [E [L [T P]]]]].
+    + left. unfold deep_step. rewrite E. split; [exact E|]. split; [lia|]. nia.
+    + rewrite E. unfold deep_step. cbn [fst snd].
+      replace (Z.succ (Z.of_nat k) - 1) with (Z.of_nat k) by lia.
+      assert (Ht' : 0 <= top + Z.of_nat k * per < len') by nia.
+      assert (Hn : 0 <= n) by lia.
+      destruct (ensure_stack true (top + Z.of_nat k * per) n len') as [len''|] eqn:R.
+      * right. exists len''.
+        destruct (ensure_stack_sufficient _ _ _ _ Ht' Hn (proj2 L) R) as [A B].
+        split; [f_equal; lia|]. split; [lia|]. split; [lia|]. intros _. exact A.
+      * left. split; [reflexivity|]. split; [lia|].
+        apply (out_of_stack_iff _ _ _ Ht' Hn (proj2 L)) in R. exact R.
+Qed.
+
+(** Non-tail recursion of depth k (k pending calls, each checked with [ensure_stack] at tops
+    top, top+per, ...): out of stack exactly when the deepest check does not fit below the
+    configured maximum; otherwise the stack has been grown so that the deepest frame fits, it
+    never shrinks and never exceeds the maximum.  In particular every depth whose frames fit
+    below SEXP_MAX_STACK_SIZE succeeds, however much deeper than the initial stack it is. *)
+Lemma deep_calls_outcome : forall k top per n len,
+  0 < per <= n -> 0 <= top < len -> len <= MAX_STACK_SIZE ->
+  (deep_calls k top per n len = OutOfStack <->
+   (0 < k)%nat /\ top + (Z.of_nat k - 1) * per + n >= MAX_STACK_SIZE) /\
+  (forall len', deep_calls k top per n len = Enough len' ->
+     len <= len' <= MAX_STACK_SIZE /\ ((0 < k)%nat -> top + (Z.of_nat k - 1) * per + n < len')).
+Proof.
+  intros k top per n len Hp Ht Hl. unfold deep_calls.
+  destruct (deep_iter_inv per n top len Hp Ht Hl k) as [[E [K G]]|[len' [E [L [T P]]]]]; cbv zeta in *.
+  - split; [split; [intros _; split; assumption|intros _; exact E]|].
+    intros len' H. rewrite E in H. discriminate.
+  - rewrite E. cbn [snd]. split.
+    + split; [discriminate|]. intros [K G]. specialize (P K). lia.
+    + intros l H. inversion H; subst l. split; assumption.
+Qed.
+
+Lemma deep_outcome_calls : forall k top per n len, 0 <= k ->
+  deep_outcome k top per n len = deep_calls (Z.to_nat k) top per n len.
+Proof.
+  intros k top per n len Hk. unfold deep_outcome, deep_calls.
+  destruct k as [|p|p]; [reflexivity| |lia].
+  cbn [Z.iter Z.to_nat]. rewrite Pos2Nat.inj_iter. reflexivity.
+Qed.
+
+Example deep_calls_example :
+  deep_outcome 189 11 5 69 1024 = Enough 1024 /\ deep_outcome 190 11 5 69 1024 = Enough 2048 /\
+  deep_outcome 2000 11 5 69 1024 = Enough 16384 /\
+  deep_calls 3 1023917 5 69 524288 = Enough 1024000 /\ deep_calls 4 1023917 5 69 524288 = OutOfStack.
+Proof. repeat split; vm_compute; reflexivity. Qed.
